@@ -74,7 +74,7 @@ func checkC02Text(c DiffTextCase, r *rec.Rec) error {
 
 var diffLinePool = []string{
 	"[", "]", "@ []", "@ [0]", "@ [-1]", "@ [\"a\"]", "@ [\"a\",0]", "@ [{}]", "@ [[]]", "@ [\"a\",{}]", "@ [[\"set\"],{}]", "@ [[\"multiset\"],[]]",
-	"^ {\"Merge\":true}", "^ {\"Merge\":false}", "^ \"SET\"", "^ \"MULTISET\"", "^ {\"setkeys\":[\"id\"]}", "^ {\"Version\":2}", "^ [\"MERGE\"]",
+	"^ {\"Merge\":true}", "^ {\"Merge\":false}", "^ \"SET\"", "^ \"MULTISET\"", "^ {\"setkeys\":[\"id\"]}", "^ {\"Version\":2}", "^ {\"Version\":\"2\"}", "^ {\"Merge\":\"yes\"}", "^ {\"Merge\":null}", "^ {\"setkeys\":\"id\"}", "^ [\"MERGE\"]",
 	"+", "-", "+ 1", "- 1", "  1", "+ {}", "- []", "  {\"a\":1}", "+ \"x\"", "- \"x\"", "  ", " ", "", "+1", "@", "^", "@ [\"a\"", "- 1 2", "+ 1e999", "# note", "\\ No newline at end of file",
 	"@ [{\"id\":1},\"v\"]", "@ [{\"id\":1}]", "@ [\"a\",-1]", "@ [1.5]", "@ [\"a\",1e2]", "@ [null]", "@ [true]",
 }
